@@ -785,8 +785,8 @@ def run(ctx: Ctx):
     n_corpus = len(pairs)
 
     # --- generated: every subset of sources, for every method, per parser --------------------------
-    n_specs = ctx.budget(13, 61) * (2 if ctx.search_boost > 1 else 1)
-    per_spec = ctx.budget(260, 450) * (2 if ctx.search_boost > 1 else 1)
+    n_specs = ctx.budget(13, 121) * (2 if ctx.search_boost > 1 else 1)
+    per_spec = ctx.budget(260, 500) * (2 if ctx.search_boost > 1 else 1)
     methods = ["args", "args", "args", "args", "env", "env_dict", "string", "path", "object", "args"]
     specs = [CORPUS_SPEC_Q] + [gen_spec(ctx.rng, i) for i in range(n_specs - 1)]
     for spec in specs:
